@@ -136,8 +136,13 @@ impl FeatureRangeFn {
                         let end_idx = (end as #repr).wrapping_sub(Self::#ident_min as #repr) as #repr_unsigned as usize;
 
                         use ::core::iter::Iterator;
+                        let slice: &'static [Self] = if start_idx > end_idx {
+                            &[]
+                        } else {
+                            &Self::#ident_table_enum[start_idx..=end_idx]
+                        };
                         #ident_iter_struct {
-                            inner: Self::#ident_table_enum[start_idx..=end_idx].iter().copied(),
+                            inner: slice.iter().copied(),
                         }
                     }
                 },
@@ -202,8 +207,13 @@ impl FeatureRangeFn {
                         let end_idx = unsafe { end_idx.assume_init() };
 
                         use ::core::iter::Iterator;
+                        let slice: &'static [Self] = if start_idx > end_idx {
+                            &[]
+                        } else {
+                            &Self::#ident_table_enum[start_idx..=end_idx]
+                        };
                         #ident_iter_struct {
-                            inner: Self::#ident_table_enum[start_idx..=end_idx].iter().copied(),
+                            inner: slice.iter().copied(),
                         }
                     }
                 },
